@@ -9,7 +9,7 @@ pipelined neighbours; plus probes whose oversized element is never terminated or
 (request line, field line, many field lines, chunk-size line, chunk extension, trailer line, Content-Length
 body, chunk, close-delimited body).  All under >=4 segmentations.  The input evbuffer's exact high-water mark and
 the number of bytes consumed from it are measured with an evbuffer callback and sampled at every wait."""
-import random
+import os, random
 import vlib
 from ref import http9112 as ref
 from ref import httporacle as ho
@@ -20,6 +20,9 @@ RULE = ("limit cases (server 70% / client 30%; 72% valid messages with limits pl
         "each under 4 (quick) / 6 (thorough) segmentations; non-trivial = a finite limit is configured and the stream contains a message that is over, "
         "at, or within one line-terminator band of that limit, or is a probe; distinct = hash of (options, stream)")
 SIZES = dict(quick=800, thorough=40000)
+# VERIF_THOROUGH_DIV=n divides the thorough case counts (to try the thorough command on a loaded machine); default 1
+_DIV = max(1, int(os.environ.get("VERIF_THOROUGH_DIV", "1") or "1"))
+SIZES["thorough"] = max(SIZES["quick"], SIZES["thorough"] // _DIV)
 BATCH = 2000
 
 REG = dict(category="exploration",
@@ -29,7 +32,7 @@ REG = dict(category="exploration",
                 "callback + sampling at every wait) and the bytes drained by lingering close are checked. Held-on-observed, not a proof.",
            note="CALIBRATED: the header-section size is taken as the sum of line lengths without terminators (what the tree counts; the API is "
                 "undocumented), messages between that measure and the on-the-wire size may be accepted or rejected; buffering bound = both limits + "
-                "one 16384-byte bufferevent read + 256; sizes come from lib/ref/http9112.py",
+                "two 16384-byte bufferevent reads + 256; sizes come from lib/ref/http9112.py",
            technique="limit-boundary workload + exact buffer high-water monitor + reference-measured sizes + segmentation metamorphic check, sanitizers live")
 
 
